@@ -218,6 +218,11 @@ def _engine_call(p, side, ctl, name, orig, a, kw):
     r = orig(*a, **kw)
     if ctl.log_calls:
         ctl.calls.append((idx, side, name, tuple(_desc_arg(x) for x in a), ctl.step_no))
+    if name in ("upload", "create", "rename") and ctl.corrupt.get(side):
+        # the engine replaced the unreadable object's bytes with known-good ones (or, with path ids, put a good
+        # object where the unreadable one used to be): that id is readable again
+        ro = r if isinstance(r, str) else getattr(r, "oid", None)
+        ctl.corrupt[side].discard(ro)
     if name in WRITES:
         ctl.npw += 1
         ctl.writes.append((idx, side, name, desc, ctl.step_no, ctl.attrib))
